@@ -223,6 +223,7 @@ def main():
         return run.finish(dict(evaluations=0), [], [])
     wd = scratch_dir()
     run.check_proofs(deps=['theories/Model/InitMerge.vo', 'theories/Proofs/InitMergeProofs.vo'], extra=['initcur'])
+    NCORPUS = run_corpus(run, PID, src)          # minimised past failures first
     chibi = os.path.join(src, 'chibicc')
     evals = 0; nontriv = 0; dist = {}; samples = []
     def count(k, n=1): dist[k] = dist.get(k, 0) + n
